@@ -13,12 +13,17 @@ Inductive rop :=
 | W (off : byte) (data : list byte)
 | T (n : byte)
 | F
-| R (off len : byte).
+| R (off len : byte)
+| WR (off : byte) (data : list byte) (roff rlen : byte)    (* Write, then a Read while the Write's saves are in flight *)
+| FC.                                                      (* the real FileHandle.Flush, last op of a history *)
+(* every observation ends with entry.Attributes.FileSize after the op *)
 Inductive robs :=
-| OW (shape : list byte) (saved : list byte)
+| OW (shape : list byte) (saved : list byte) (attr : byte)
 | OT (chunks : list byte) (attr : byte)
-| OF (shape : list byte) (saved : list byte) (content : list byte)
-| OR (dirty : list byte) (maxStop : byte) (data : list byte).
+| OF (shape : list byte) (saved : list byte) (content : list byte) (attr : byte)
+| OR (dirty : list byte) (maxStop : byte) (data : list byte) (attr : byte)
+| OWR (shape : list byte) (saved : list byte) (dirty : list byte) (maxStop : byte) (data : list byte) (attr : byte)
+| OFC (shape : list byte) (saved : list byte) (content : list byte) (created : list byte) (attr : byte).
 
 (* a case is a batch of histories on fresh files: each history is [pre] followed by one element of [hists]
    (the common prefix and the implementation's observations on it are written once) *)
@@ -54,23 +59,29 @@ Fixpoint saved_fuel (fuel : nat) (l : list N) : list chunk :=
   end.
 Definition svd (l : list byte) : list chunk := saved_fuel (length l) (bn l).
 
-Definition dec_op (o : rop) : op :=
+Definition dec_op (o : rop) : xop :=
   match o with
-  | W off d => Write (bz off) (bn d)
-  | T n => Trunc (bz n)
-  | F => Flush
-  | R off len => Read (bz off) (bz len)
+  | W off d => XOp (Write (bz off) (bn d))
+  | T n => XOp (Trunc (bz n))
+  | F => XOp Flush
+  | R off len => XOp (Read (bz off) (bz len))
+  | WR off d roff rlen => WriteRead (bz off) (bn d) (bz roff) (bz rlen)
+  | FC => FlushClose
   end.
 (* the dirty-layer buffer of a Read is written without its trailing zeros: pad it to the read length *)
 Definition pad_to (len : Z) (d : list N) : list N := d ++ repeat 0%N (Z.to_nat len - length d).
-Definition dec_obs (o : rop) (ob : robs) : obs :=
+Definition dec_obs (o : rop) (ob : robs) : xobs :=
   match ob with
-  | OW s sv => OWrite (shp s) (svd sv)
-  | OT c a => OTrunc (prs (bzs c)) (bz a)
-  | OF s sv c => OFlush (shp s) (svd sv) (bn c)
-  | OR d m x => ORead (pad_to (match o with R _ len => bz len | _ => 0 end) (bn d)) (bz m) (bn x)
+  | OW s sv a => XObs (OWrite (shp s) (svd sv)) (bz a)
+  | OT c a => XObs (OTrunc (prs (bzs c)) (bz a)) (bz a)
+  | OF s sv c a => XObs (OFlush (shp s) (svd sv) (bn c)) (bz a)
+  | OR d m x a => XObs (ORead (pad_to (match o with R _ len => bz len | _ => 0 end) (bn d)) (bz m) (bn x)) (bz a)
+  | OWR s sv d m x a =>
+      XWriteRead (OWrite (shp s) (svd sv))
+                 (ORead (pad_to (match o with WR _ _ _ len => bz len | _ => 0 end) (bn d)) (bz m) (bn x)) (bz a)
+  | OFC s sv c cr a => XClose (OFlush (shp s) (svd sv) (bn c)) (bn cr) (bz a)
   end.
-Fixpoint dec_obs_list (os : list rop) (rs : list robs) : list obs :=
+Fixpoint dec_obs_list (os : list rop) (rs : list robs) : list xobs :=
   match os, rs with
   | o :: os', ob :: rs' => dec_obs o ob :: dec_obs_list os' rs'
   | _, _ => []
@@ -98,10 +109,18 @@ Definition obs_eqb (a b : obs) : bool :=
   | _, _ => false
   end.
 
-Definition model_run (c : case) (ops : list op) : list obs :=
-  if tempfile c then t_run (limit c) ops else m_run (limit c) ops.
-Definition model_trigger (c : case) (ops : list op) : option N :=
-  if tempfile c then t_trigger (limit c) ops else m_trigger (limit c) ops.
+Definition xobs_eqb (a b : xobs) : bool :=
+  match a, b with
+  | XObs o1 a1, XObs o2 a2 => obs_eqb o1 o2 && (a1 =? a2)
+  | XWriteRead w1 r1 a1, XWriteRead w2 r2 a2 => obs_eqb w1 w2 && obs_eqb r1 r2 && (a1 =? a2)
+  | XClose o1 c1 a1, XClose o2 c2 a2 => obs_eqb o1 o2 && bytes_eqb c1 c2 && (a1 =? a2)
+  | _, _ => false
+  end.
+
+Definition model_run (c : case) (ops : list xop) : list xobs :=
+  if tempfile c then t_xrun (limit c) ops else m_xrun (limit c) ops.
+Definition model_trigger (c : case) (ops : list xop) : option N :=
+  if tempfile c then t_xtrigger (limit c) ops else m_xtrigger (limit c) ops.
 
 (* ---- the property oracle: the POSIX file replayed along the ops, checked against the
    implementation's answers.  [cov] = the (offset,size) nodes the implementation last reported:
@@ -141,17 +160,34 @@ Definition first_some (l : list (option N)) : option N :=
 Definition is_saving (ob : obs) : bool := match ob with OFlush _ (_ :: _) _ => true | OWrite _ (_ :: _) => true | _ => false end.
 Definition is_read_nonempty (ob : obs) : bool := match ob with ORead _ _ (_ :: _) => true | _ => false end.
 
+(* the POSIX oracle on an extended history: WriteRead counts as Write followed by Read; the attribute size
+   reported after every op is the POSIX file size; the entry sent to the filer by the closing flush
+   resolves to the POSIX file *)
+Fixpoint attrs_ok (f : list N) (ops : list xop) (os : list xobs) : bool :=
+  match ops, os with
+  | [], [] => true
+  | xo :: ops', xb :: os' =>
+      let f' := fold_left pstep (xflat1 xo) f in
+      (match xb with
+       | XObs _ a => a =? zlen f' | XWriteRead _ _ a => a =? zlen f'
+       | XClose _ created a => (a =? zlen f') && bytes_eqb created f'   (* the filer received the POSIX file *)
+       end) && attrs_ok f' ops' os'
+  | _, _ => false
+  end.
+Definition xposix_ok (ops : list xop) (os : list xobs) : bool :=
+  posix_ok [] [] (xflat ops) (xobs_flat os) && attrs_ok [] ops os.
+
 Definition check (c : case) : outcome :=
   let raw := map (fun h => (fst (pre c) ++ fst h, snd (pre c) ++ snd h)) (hists c) in
   let hs := map (fun h => (map dec_op (fst h), dec_obs_list (fst h) (snd h))) raw in
   {| o_corr := forallb (fun h => Nat.eqb (length (fst h)) (length (snd h))) raw &&
-               forallb (fun h => all2 obs_eqb (model_run c (fst h)) (snd h)) hs;
-     o_prop := forallb (fun h => posix_ok [] [] (fst h) (snd h)) hs;
+               forallb (fun h => all2 xobs_eqb (model_run c (fst h)) (snd h)) hs;
+     o_prop := forallb (fun h => xposix_ok (fst h) (snd h)) hs;
      (* a known finding explains the case only if EVERY failing history of the batch is inside a trigger set *)
      o_trig := (let ts := map (fun h => model_trigger c (fst h))
-                              (filter (fun h => negb (posix_ok [] [] (fst h) (snd h))) hs) in
+                              (filter (fun h => negb (xposix_ok (fst h) (snd h))) hs) in
                 if forallb (fun t => match t with Some _ => true | None => false end) ts
                 then first_some ts else None);
-     o_nontrivial := existsb (fun h => existsb is_saving (snd h) && existsb is_read_nonempty (snd h)) hs |}.
+     o_nontrivial := existsb (fun h => existsb is_saving (xobs_flat (snd h)) && existsb is_read_nonempty (xobs_flat (snd h))) hs |}.
 
 Definition summarize_cases (l : list case) : summary := summarize check l.
